@@ -109,10 +109,11 @@ def elemTail (P : Prims) (dd : DDesc) (e : Elem) (s : St) : CM St :=
     | none => P.numeric dd nbits scale (e.ref * s.regs.refFactor) s
     | some nr => P.numeric dd nbits scale (nr * s.regs.refFactor) s
 
-theorem elementDescriptor_eq (P : Prims) (dd : DDesc) (e : Elem) (s : St) (ha : s.regs.assocStack = []) :
+theorem elementDescriptor_eq (P : Prims) (dd : DDesc) (e : Elem) (s : St)
+    (ha : s.regs.assocStack = [] ∨ xOf e.id = 31) :
     elementDescriptor P dd e s = (qaPart e s >>= elemTail P dd e) := by
   unfold elementDescriptor qaPart elemTail
-  have hc : ¬ (s.regs.assocStack ≠ [] ∧ xOf e.id ≠ 31) := fun c => c.1 ha
+  have hc : ¬ (s.regs.assocStack ≠ [] ∧ xOf e.id ≠ 31) := fun c => ha.elim c.1 c.2
   simp only [if_neg hc, bind, Except.bind, pure, Except.pure]
   rfl
 
@@ -196,7 +197,7 @@ theorem qaPart_done {e : Elem} {s s1 : St} (h : qaPart e s = .ok s1) : ∃ ll, Q
 /-- `process_element_descriptor` without associated field: possibly a link keyed by the own position (class 33
     while quality information is awaited), the QA machine steps, then ONE item is recorded -/
 theorem elementDescriptor_links {P : Prims} (hP : PushOne P) {dd : DDesc} {e : Elem} {s s' : St}
-    (ha : s.regs.assocStack = []) (h : elementDescriptor P dd e s = .ok s') :
+    (ha : s.regs.assocStack = [] ∨ xOf e.id = 31) (h : elementDescriptor P dd e s = .ok s') :
     ∃ s1 ll, QaDone (xOf e.id) s s1 ll ∧ Pushed dd s1 s' := by
   rw [elementDescriptor_eq P dd e s ha] at h
   cases h1 : qaPart e s with
@@ -215,20 +216,21 @@ def QaIn (a : Abs) : QaStatus → Prop
 
 /-- the coder's side: no associated field, no 203 definition, no 221 count; aligned value lists; no `A` label -/
 structure Inv2 (a : Abs) (s : St) : Prop where
-  assoc : s.regs.assocStack = []
+  assoc : s.regs.assocStack.length = a.ad
   nref : s.regs.nbitsNewRefval = 0
   dnp : s.regs.dnpCount = 0
   vals : ∃ l, s.vals.head? = some l ∧ l.length = s.descs.length
   al : ∀ l ∈ s.vals, l.length = s.descs.length
-  noA : ∀ d ∈ s.descs, d.isAssoc = false
   skip : decide (s.regs.nbitsSkipped ≠ 0) = a.skip
   qa : QaIn a s.regs.qa
 
-/-- what is known about the FINAL flat lists: an owner lies in front of a bit-map operator item that lies in front of
-    the attribute (`C07.LinkInv`, proved for every template), no `A` label -/
+/-- the label at position `i` of the final list is not an associated field -/
+def NotA (o : SubsetOut) (i : Nat) : Prop := ∃ d, o.descs[i]? = some d ∧ d.isAssoc = false
+
+/-- what is known about the FINAL flat lists: an owner is a plain element and lies in front of a bit-map operator item
+    that lies in front of the attribute (`C07.LinkInv`, proved for every template) -/
 def Fin (o : SubsetOut) : Prop :=
-  (∀ l ∈ o.links, ∃ p id, l.2 < p ∧ p < l.1 ∧ C07.IsBitmapOp id ∧ o.descs[p]? = some (.oper id)) ∧
-    (∀ d ∈ o.descs, d.isAssoc = false)
+  ∀ l ∈ o.links, NotA o l.2 ∧ ∃ p id, l.2 < p ∧ p < l.1 ∧ C07.IsBitmapOp id ∧ o.descs[p]? = some (.oper id)
 
 def Ext2 (s s' : St) : Prop := Ext s s' ∧ ∃ ll, s'.links = ll ++ s.links
 
@@ -256,7 +258,11 @@ def NoOpFrom (o : SubsetOut) (m n : Nat) : Prop :=
 
 /-- a meaning node that is known lies behind the last bit-map operator -/
 def MeanOK (o : SubsetOut) (b : Bool) (fm : Option Nat) (n : Nat) : Prop :=
-  b = true → ∃ m, fm = some m ∧ m < n ∧ NoOpFrom o m n
+  b = true → ∃ m, fm = some m ∧ m < n ∧ NoOpFrom o m n ∧ NotA o m
+
+/-- the node of the 031021 in force, when known -/
+def AMeanOK (o : SubsetOut) (b : Bool) (fm : Option Nat) (n : Nat) : Prop :=
+  b = true → ∃ m, fm = some m ∧ m < n ∧ NotA o m
 
 /-- the attributes a bitmap-linked node is created with: none, or its meaning node, which lies behind the owner -/
 def OwnOK (owner i : Nat) (own : List Node) : Prop :=
@@ -268,15 +274,16 @@ def NonOp (dd : DDesc) : Prop := ∀ id, dd = .oper id → ¬ C07.IsBitmapOp id
 structure R (o : SubsetOut) (a : Abs) (s : St) (w : WSt) : Prop where
   next : w.next = s.descs.length
   dnp : w.dnp = 0
-  assoc : w.assoc = []
+  assoc : w.assoc = s.regs.assocStack
   wq : w.waitQa = a.w
   w1 : w.wait1st = a.w1
   wD : w.waitDiff = a.wD
   m1 : MeanOK o a.h1 w.firstMeaning w.next
   mD : MeanOK o a.hD w.diffMeaning w.next
-  reg : ∀ j, j < w.next → j ∈ w.reg
+  mA : AMeanOK o a.hA w.assocMeaning w.next
+  reg : ∀ j, j < w.next → NotA o j → j ∈ w.reg
   tabS : ∀ p ∈ w.tab, ∃ k i own, p.2 = .value k i own ∧ p.1 < i ∧ i < w.next ∧
-    lookupLink o.links i = some p.1 ∧ OwnOK p.1 i own
+    lookupLink o.links i = some p.1 ∧ OwnOK p.1 i own ∧ NotA o i
   tabC : ∀ q ∈ s.links, ∃ p ∈ w.tab, p.2.index? = some q.1
 
 def Sim2 {α : Type} (a a' : Abs) (good : SubsetOut → α → Prop) (s s' : St)
@@ -484,8 +491,8 @@ theorem take2 {o : SubsetOut} {dd : DDesc} {s s1 : St} {w : WSt} (hp : Pushed dd
 theorem MeanOK.push {o : SubsetOut} {b : Bool} {fm : Option Nat} {n : Nat} {dd : DDesc} (h : MeanOK o b fm n)
     (hl : o.descs[n]? = some dd) (hd : NonOp dd) : MeanOK o b fm (n + 1) := by
   intro hb
-  obtain ⟨m, e, hm, hno⟩ := h hb
-  refine ⟨m, e, by omega, fun p id h1 h2 h3 => ?_⟩
+  obtain ⟨m, e, hm, hno, hA⟩ := h hb
+  refine ⟨m, e, by omega, fun p id h1 h2 h3 => ?_, hA⟩
   by_cases hp : p < n
   · exact hno p id h1 hp h3
   · have : p = n := by omega
@@ -494,10 +501,10 @@ theorem MeanOK.push {o : SubsetOut} {b : Bool} {fm : Option Nat} {n : Nat} {dd :
     injection h3 with h3
     exact hd id h3
 
-theorem MeanOK.new {o : SubsetOut} {b : Bool} {n : Nat} {dd : DDesc} (hl : o.descs[n]? = some dd) (hd : NonOp dd) :
-    MeanOK o b (some n) (n + 1) := by
+theorem MeanOK.new {o : SubsetOut} {b : Bool} {n : Nat} {dd : DDesc} (hl : o.descs[n]? = some dd) (hd : NonOp dd)
+    (hA : dd.isAssoc = false) : MeanOK o b (some n) (n + 1) := by
   intro _
-  refine ⟨n, rfl, by omega, fun p id h1 h2 h3 => ?_⟩
+  refine ⟨n, rfl, by omega, fun p id h1 h2 h3 => ?_, ⟨dd, hl, hA⟩⟩
   have : p = n := by omega
   subst this
   rw [hl] at h3
@@ -509,19 +516,27 @@ theorem MeanOK.off {o : SubsetOut} {fm : Option Nat} {n : Nat} : MeanOK o false 
 theorem MeanOK.congr {o : SubsetOut} {b b' : Bool} {fm : Option Nat} {n : Nat} (h : MeanOK o b fm n) (e : b' = b) :
     MeanOK o b' fm n := by rw [e]; exact h
 
+theorem AMeanOK.mono {o : SubsetOut} {b b' : Bool} {fm : Option Nat} {n n' : Nat} (h : AMeanOK o b fm n)
+    (e : b' = b) (hn : n ≤ n') : AMeanOK o b' fm n' := by
+  intro hb
+  rw [e] at hb
+  obtain ⟨m, e1, hm, hA⟩ := h hb
+  exact ⟨m, e1, by omega, hA⟩
+
 /-- one index consumed, nothing attached -/
 theorem R.value {o : SubsetOut} {a a' : Abs} {s s' : St} {w w' : WSt} (h : R o a s w)
     (hd : s'.descs.length = s.descs.length + 1) (hl : s'.links = s.links)
     (hnext : w'.next = w.next + 1) (hdnp : w'.dnp = w.dnp) (hassoc : w'.assoc = w.assoc)
     (hreg : w'.reg = w.next :: w.reg) (htab : w'.tab = w.tab)
     (wq : w'.waitQa = a'.w) (w1 : w'.wait1st = a'.w1) (wD : w'.waitDiff = a'.wD)
-    (m1 : MeanOK o a'.h1 w'.firstMeaning w'.next) (mD : MeanOK o a'.hD w'.diffMeaning w'.next) : R o a' s' w' := by
-  refine ⟨by rw [hnext, hd, h.next], by rw [hdnp, h.dnp], by rw [hassoc, h.assoc], wq, w1, wD, m1, mD, ?_, ?_, ?_⟩
-  · intro j hj
+    (m1 : MeanOK o a'.h1 w'.firstMeaning w'.next) (mD : MeanOK o a'.hD w'.diffMeaning w'.next)
+    (hsa : s'.regs.assocStack = s.regs.assocStack) (mA : AMeanOK o a'.hA w'.assocMeaning w'.next) : R o a' s' w' := by
+  refine ⟨by rw [hnext, hd, h.next], by rw [hdnp, h.dnp], by rw [hassoc, h.assoc, hsa], wq, w1, wD, m1, mD, mA, ?_, ?_, ?_⟩
+  · intro j hj hA
     rw [hreg]
     by_cases e : j = w.next
     · rw [e]; exact List.mem_cons_self
-    · exact List.mem_cons_of_mem _ (h.reg j (by omega))
+    · exact List.mem_cons_of_mem _ (h.reg j (by omega) hA)
   · intro p hp
     rw [htab] at hp
     obtain ⟨k, i, own, e1, e0, e2, e3, e4⟩ := h.tabS p hp
@@ -534,14 +549,15 @@ theorem R.value {o : SubsetOut} {a a' : Abs} {s s' : St} {w w' : WSt} (h : R o a
 /-- no index consumed -/
 theorem R.stay {o : SubsetOut} {a a' : Abs} {s s' : St} {w w' : WSt} (h : R o a s w)
     (hd : s'.descs = s.descs) (hl : s'.links = s.links)
-    (hnext : w'.next = w.next) (hdnp : w'.dnp = w.dnp) (hassoc : w'.assoc = w.assoc)
+    (hnext : w'.next = w.next) (hdnp : w'.dnp = w.dnp) (hassoc : w'.assoc = s'.regs.assocStack)
     (hreg : w'.reg = w.reg) (htab : w'.tab = w.tab)
     (wq : w'.waitQa = a'.w) (w1 : w'.wait1st = a'.w1) (wD : w'.waitDiff = a'.wD)
-    (m1 : MeanOK o a'.h1 w'.firstMeaning w'.next) (mD : MeanOK o a'.hD w'.diffMeaning w'.next) : R o a' s' w' := by
-  refine ⟨by rw [hnext, hd, h.next], by rw [hdnp, h.dnp], by rw [hassoc, h.assoc], wq, w1, wD, m1, mD, ?_, ?_, ?_⟩
-  · intro j hj
+    (m1 : MeanOK o a'.h1 w'.firstMeaning w'.next) (mD : MeanOK o a'.hD w'.diffMeaning w'.next)
+    (mA : AMeanOK o a'.hA w'.assocMeaning w'.next) : R o a' s' w' := by
+  refine ⟨by rw [hnext, hd, h.next], by rw [hdnp, h.dnp], hassoc, wq, w1, wD, m1, mD, mA, ?_, ?_, ?_⟩
+  · intro j hj hA
     rw [hreg]
-    exact h.reg j (by omega)
+    exact h.reg j (by omega) hA
   · intro p hp
     rw [htab] at hp
     obtain ⟨k, i, own, e1, e0, e2, e3, e4⟩ := h.tabS p hp
@@ -556,21 +572,22 @@ theorem R.attr {o : SubsetOut} {a a' : Abs} {s s' : St} {w w' : WSt} {ll : List 
     {own : List Node} {owner : Nat} (h : R o a s w)
     (hd : s'.descs.length = s.descs.length + 1) (hl : s'.links = ll ++ s.links)
     (hk : ∀ q ∈ ll, q.1 = s.descs.length) (hlook : lookupLink o.links w.next = some owner)
-    (hlt : owner < w.next) (hown : OwnOK owner w.next own)
+    (hlt : owner < w.next) (hown : OwnOK owner w.next own) (hnA : NotA o w.next)
     (hnext : w'.next = w.next + 1) (hdnp : w'.dnp = w.dnp) (hassoc : w'.assoc = w.assoc)
     (hreg : w'.reg = w.next :: w.reg) (htab : w'.tab = (owner, .value k w.next own) :: w.tab)
     (wq : w'.waitQa = a'.w) (w1 : w'.wait1st = a'.w1) (wD : w'.waitDiff = a'.wD)
-    (m1 : MeanOK o a'.h1 w'.firstMeaning w'.next) (mD : MeanOK o a'.hD w'.diffMeaning w'.next) : R o a' s' w' := by
-  refine ⟨by rw [hnext, hd, h.next], by rw [hdnp, h.dnp], by rw [hassoc, h.assoc], wq, w1, wD, m1, mD, ?_, ?_, ?_⟩
-  · intro j hj
+    (m1 : MeanOK o a'.h1 w'.firstMeaning w'.next) (mD : MeanOK o a'.hD w'.diffMeaning w'.next)
+    (hsa : s'.regs.assocStack = s.regs.assocStack) (mA : AMeanOK o a'.hA w'.assocMeaning w'.next) : R o a' s' w' := by
+  refine ⟨by rw [hnext, hd, h.next], by rw [hdnp, h.dnp], by rw [hassoc, h.assoc, hsa], wq, w1, wD, m1, mD, mA, ?_, ?_, ?_⟩
+  · intro j hj hA
     rw [hreg]
     by_cases e : j = w.next
     · rw [e]; exact List.mem_cons_self
-    · exact List.mem_cons_of_mem _ (h.reg j (by omega))
+    · exact List.mem_cons_of_mem _ (h.reg j (by omega) hA)
   · intro p hp
     rw [htab] at hp
     rcases List.mem_cons.mp hp with rfl | hp
-    · exact ⟨k, w.next, own, rfl, hlt, by omega, hlook, hown⟩
+    · exact ⟨k, w.next, own, rfl, hlt, by omega, hlook, hown, hnA⟩
     · obtain ⟨k', i, own', e1, e0, e2, e3, e4⟩ := h.tabS p hp
       exact ⟨k', i, own', e1, e0, by omega, e3, e4⟩
   · intro q hq
@@ -583,8 +600,8 @@ theorem R.attr {o : SubsetOut} {a a' : Abs} {s s' : St} {w w' : WSt} {ll : List 
 
 /-- a silent step of the coder (registers the pass does not see) -/
 theorem R.vis {o : SubsetOut} {a : Abs} {s s1 : St} {w : WSt} (h : R o a s w) (v : Vis s s1) : R o a s1 w :=
-  ⟨by rw [v.descs]; exact h.next, h.dnp, h.assoc, h.wq, h.w1, h.wD, h.m1, h.mD, h.reg, h.tabS,
-    by rw [v.links]; exact h.tabC⟩
+  ⟨by rw [v.descs]; exact h.next, h.dnp, by rw [v.assoc]; exact h.assoc, h.wq, h.w1, h.wD, h.m1, h.mD, h.mA, h.reg,
+    h.tabS, by rw [v.links]; exact h.tabC⟩
 
 /-! ### one item recorded by the coder -/
 
@@ -625,22 +642,16 @@ theorem Item.ext {dd : DDesc} {ll : List (Nat × Nat)} {a : Abs} {s s' : St} (hi
   exact ⟨⟨[dd], [v], l, hl, hv, it.descs⟩, ll, it.links⟩
 
 theorem Item.inv {dd : DDesc} {ll : List (Nat × Nat)} {a a' : Abs} {s s' : St} (hi : Inv2 a s) (it : Item dd ll s s')
-    (hA : dd.isAssoc = false) (hsk : decide (s'.regs.nbitsSkipped ≠ 0) = a'.skip) (hqa : QaIn a' s'.regs.qa) :
+    (hsk : decide (s'.regs.nbitsSkipped ≠ 0) = a'.skip) (hqa : QaIn a' s'.regs.qa) (had : a'.ad = a.ad) :
     Inv2 a' s' := by
   obtain ⟨l, hl, hn⟩ := hi.vals
   obtain ⟨v, hv⟩ := it.vals l hl
-  refine ⟨it.assoc.trans hi.assoc, it.nref.trans hi.nref, it.dnp.trans hi.dnp,
-    ⟨v :: l, hv, by rw [it.descs, List.length_cons, List.length_cons, hn]⟩, it.al hi.al, ?_, hsk, hqa⟩
-  intro d hd
-  rw [it.descs] at hd
-  rcases List.mem_cons.mp hd with rfl | hd
-  · exact hA
-  · exact hi.noA d hd
+  exact ⟨by rw [it.assoc, had]; exact hi.assoc, it.nref.trans hi.nref, it.dnp.trans hi.dnp,
+    ⟨v :: l, hv, by rw [it.descs, List.length_cons, List.length_cons, hn]⟩, it.al hi.al, hsk, hqa⟩
 
 theorem Inv2.vis {a : Abs} {s s1 : St} (hi : Inv2 a s) (v : Vis s s1) (hq : s1.regs.qa = s.regs.qa) : Inv2 a s1 :=
-  ⟨v.assoc.trans hi.assoc, v.nref.trans hi.nref, v.dnp.trans hi.dnp, by rw [v.vals, v.descs]; exact hi.vals,
-    by rw [v.vals, v.descs]; exact hi.al, by rw [v.descs]; exact hi.noA, by rw [v.skipped]; exact hi.skip,
-    by rw [hq]; exact hi.qa⟩
+  ⟨by rw [v.assoc]; exact hi.assoc, v.nref.trans hi.nref, v.dnp.trans hi.dnp, by rw [v.vals, v.descs]; exact hi.vals,
+    by rw [v.vals, v.descs]; exact hi.al, by rw [v.skipped]; exact hi.skip, by rw [hq]; exact hi.qa⟩
 
 theorem Vis.ext2 {a : Abs} {s s1 : St} (hi : Inv2 a s) (v : Vis s s1) : Ext2 s s1 := by
   obtain ⟨l, hl, _⟩ := hi.vals
@@ -657,6 +668,7 @@ theorem Sim2.pre {α : Type} {a a' : Abs} {g : SubsetOut → α → Prop} {s s1 
 def ownShape (i : Nat) : List Node → Bool
   | [] => true
   | [.value .value m []] => decide (m < i)
+  | [.value .assoc a [.value .value m []]] => decide (m < a) && decide (a < i)
   | _ => false
 
 def valShape (N : Nat) : Node → Bool
@@ -714,8 +726,9 @@ structure Flags (w w0 : WSt) : Prop where
   tab : w0.tab = w.tab
   fm : w0.firstMeaning = w.firstMeaning
   dm : w0.diffMeaning = w.diffMeaning
+  am : w0.assocMeaning = w.assocMeaning
 
-theorem Flags.rfl' (w : WSt) : Flags w w := ⟨rfl, rfl, rfl, rfl, rfl, rfl, rfl⟩
+theorem Flags.rfl' (w : WSt) : Flags w w := ⟨rfl, rfl, rfl, rfl, rfl, rfl, rfl, rfl⟩
 
 /-- the position the next item takes, and its label in the final list -/
 theorem item_pos {o : SubsetOut} {a : Abs} {dd : DDesc} {ll : List (Nat × Nat)} {s s' : St} {w : WSt}
@@ -726,21 +739,24 @@ theorem item_pos {o : SubsetOut} {a : Abs} {dd : DDesc} {ll : List (Nat × Nat)}
   exact ⟨by rw [hr.next]; omega, by rw [hr.next]; exact hb.1.label it.descs⟩
 
 /-- one item, wired as a plain value node (`add_value_node`), possibly after a change of flags -/
-theorem sim_plain {a a' : Abs} {s s' : St} {dd : DDesc} (hi : Inv2 a s) (it : Item dd [] s s')
+theorem sim_plain {a a' : Abs} {s s' : St} {dd : DDesc} (hi : Inv2 a s) (hk : a'.ad = a.ad ∧ a'.hA = a.hA)
+    (it : Item dd [] s s')
     (hA : dd.isAssoc = false) (hsk : decide (s'.regs.nbitsSkipped ≠ 0) = a'.skip) (hqa : QaIn a' s'.regs.qa)
     (g : WSt → WSt) (hg : ∀ w, Flags w (g w))
     (hfl : ∀ w, w.waitQa = a.w → w.wait1st = a.w1 → w.waitDiff = a.wD →
       (g w).waitQa = a'.w ∧ (g w).wait1st = a'.w1 ∧ (g w).waitDiff = a'.wD)
     (hm : (NonOp dd ∧ a'.h1 = a.h1 ∧ a'.hD = a.hD) ∨ (a'.h1 = false ∧ a'.hD = false)) :
     Sim2 a a' Good1 s s' (fun o w => (g w).plainValue o) := by
-  refine ⟨⟨it.inv hi hA hsk hqa, it.ext hi⟩, fun o w hf hr hb => ?_⟩
+  refine ⟨⟨it.inv hi hsk hqa hk.1, it.ext hi⟩, fun o w hf hr hb => ?_⟩
   obtain ⟨hlt, hlab⟩ := item_pos it hr hb
   have fl := hg w
   obtain ⟨q1, q2, q3⟩ := hfl w hr.wq hr.w1 hr.wD
   have hlt' : (g w).next < o.descs.length := by rw [fl.next]; exact hlt
   refine ⟨_, _, plainValue_eval hlt', ?_, by rw [fl.next]; exact good_plain hlt⟩
   refine hr.value (by rw [it.descs]; rfl) (by rw [it.links]; rfl) (by show (g w).next + 1 = _; rw [fl.next]) fl.dnp
-    fl.assoc (by show (g w).next :: (g w).reg = _; rw [fl.next, fl.reg]) fl.tab q1 q2 q3 ?_ ?_
+    fl.assoc (by show (g w).next :: (g w).reg = _; rw [fl.next, fl.reg]) fl.tab q1 q2 q3 ?_ ?_ it.assoc
+    (by show AMeanOK o a'.hA (g w).assocMeaning ((g w).next + 1); rw [fl.am, fl.next]
+        exact hr.mA.mono hk.2 (Nat.le_succ _))
   · show MeanOK o a'.h1 (g w).firstMeaning ((g w).next + 1)
     rw [fl.fm, fl.next]
     rcases hm with ⟨hn, e1, _⟩ | ⟨e1, _⟩
@@ -764,17 +780,28 @@ theorem meanW_cases (id : Nat) (w : WSt) :
     by_cases c2' : w.waitDiff = true <;> simp_all
 
 /-- one item, wired by the value-node branch of `wire_element_descriptor` (meaning bookkeeping included) -/
-theorem sim_elem_plain {a a0 a' : Abs} {s s' : St} {dd : DDesc} {id : Nat} (hi : Inv2 a s) (it : Item dd [] s s')
+theorem sim_elem_plain {a a0 a' : Abs} {s s' : St} {dd : DDesc} {id : Nat} (hi : Inv2 a s)
+    (hk : a'.ad = a.ad ∧ a'.hA = a.hA) (had0 : a.ad = 0) (it : Item dd [] s s')
     (hA : dd.isAssoc = false) (hnop : NonOp dd) (hsk : decide (s'.regs.nbitsSkipped ≠ 0) = a'.skip)
     (hqa : QaIn a' s'.regs.qa)
     (h0 : a0.w = a.w ∧ a0.w1 = a.w1 ∧ a0.wD = a.wD ∧ a0.h1 = a.h1 ∧ a0.hD = a.hD)
     (ha' : a' = a0.meaning id) (hq : ¬ (xOf id = 33 ∧ a.w = true)) :
     Sim2 a a' Good1 s s' (fun o w => wireElement o id w) := by
-  refine ⟨⟨it.inv hi hA hsk hqa, it.ext hi⟩, fun o w hf hr hb => ?_⟩
+  refine ⟨⟨it.inv hi hsk hqa hk.1, it.ext hi⟩, fun o w hf hr hb => ?_⟩
   obtain ⟨hlt, hlab⟩ := item_pos it hr hb
   obtain ⟨e1, e2, e3, e4, e5⟩ := h0
   have hq' : ¬ (xOf id = 33 ∧ w.waitQa = true) := by rw [hr.wq]; exact hq
-  refine ⟨_, _, wireElement_plain hlt hr.assoc hq', ?_, good_plain hlt⟩
+  have hwa : w.assoc = [] := by
+    rw [hr.assoc]; exact List.length_eq_zero_iff.mp (by rw [hi.assoc, had0])
+  have ehA : a0.hA = a.hA := by
+    have := hk.2
+    rw [ha'] at this
+    unfold Abs.meaning at this
+    split at this
+    · exact this
+    · split at this <;> exact this
+  have hmA : AMeanOK o a0.hA w.assocMeaning (w.next + 1) := hr.mA.mono ehA (Nat.le_succ _)
+  refine ⟨_, _, wireElement_plain hlt hwa hq', ?_, good_plain hlt⟩
   have hd : s'.descs.length = s.descs.length + 1 := by rw [it.descs]; rfl
   have hl : s'.links = s.links := by rw [it.links]; rfl
   subst ha'
@@ -783,22 +810,23 @@ theorem sim_elem_plain {a a0 a' : Abs} {s s' : St} {dd : DDesc} {id : Nat} (hi :
     unfold Abs.meaning
     rw [if_pos ca]
     exact hr.value hd hl rfl rfl rfl rfl rfl (by show w.waitQa = a0.w; rw [e1]; exact hr.wq) rfl
-      (by show w.waitDiff = a0.wD; rw [e3]; exact hr.wD) (MeanOK.new hlab hnop)
-      ((hr.mD.push hlab hnop).congr (by show a0.hD = a.hD; exact e5))
+      (by show w.waitDiff = a0.wD; rw [e3]; exact hr.wD) (MeanOK.new hlab hnop hA)
+      ((hr.mD.push hlab hnop).congr (by show a0.hD = a.hD; exact e5)) it.assoc hmA
   · have ca : ¬ (id = 8023 ∧ a0.w1 = true) := by rw [e2, ← hr.w1]; exact c
     have da : id = 8024 ∧ a0.wD = true := by rw [e3, ← hr.wD]; exact d
     unfold Abs.meaning
     rw [if_neg ca, if_pos da]
     exact hr.value hd hl rfl rfl rfl rfl rfl (by show w.waitQa = a0.w; rw [e1]; exact hr.wq)
       (by show w.wait1st = a0.w1; rw [e2]; exact hr.w1) rfl
-      ((hr.m1.push hlab hnop).congr (by show a0.h1 = a.h1; exact e4)) (MeanOK.new hlab hnop)
+      ((hr.m1.push hlab hnop).congr (by show a0.h1 = a.h1; exact e4)) (MeanOK.new hlab hnop hA) it.assoc
+      hmA
   · have ca : ¬ (id = 8023 ∧ a0.w1 = true) := by rw [e2, ← hr.w1]; exact c
     have da : ¬ (id = 8024 ∧ a0.wD = true) := by rw [e3, ← hr.wD]; exact d
     unfold Abs.meaning
     rw [if_neg ca, if_neg da]
     exact hr.value hd hl rfl rfl rfl rfl rfl (by show w.waitQa = a0.w; rw [e1]; exact hr.wq)
       (by show w.wait1st = a0.w1; rw [e2]; exact hr.w1) (by show w.waitDiff = a0.wD; rw [e3]; exact hr.wD)
-      ((hr.m1.push hlab hnop).congr e4) ((hr.mD.push hlab hnop).congr e5)
+      ((hr.m1.push hlab hnop).congr e4) ((hr.mD.push hlab hnop).congr e5) it.assoc hmA
 
 /-- the link the coder recorded for the item at `w.next` is found in the final links; its owner is registered and lies
     in front of a bit-map operator item -/
@@ -810,11 +838,12 @@ theorem attr_lookup {o : SubsetOut} {a : Abs} {s s' : St} {w : WSt} (hf : Fin o)
   have : q = (w.next, q.2) := by rw [← hk]
   rw [this] at hmem
   obtain ⟨own', e, hm⟩ := lookupLink_mem hmem
-  obtain ⟨p, id, h1, h2, h3, h4⟩ := hf.1 _ hm
-  exact ⟨own', e, by simp only at h1 h2; omega, hr.reg own' (by simp only at h1 h2; omega), p, id, h1, h2, h3, h4⟩
+  obtain ⟨hnA, p, id, h1, h2, h3, h4⟩ := hf _ hm
+  exact ⟨own', e, by simp only at h1 h2; omega, hr.reg own' (by simp only at h1 h2; omega) hnA, p, id, h1, h2, h3, h4⟩
 
 /-- one item that carries a link, wired as an attribute of the owner the link names -/
-theorem sim_attr {a a' : Abs} {s s' : St} {dd : DDesc} {ll : List (Nat × Nat)} (hi : Inv2 a s) (it : Item dd ll s s')
+theorem sim_attr {a a' : Abs} {s s' : St} {dd : DDesc} {ll : List (Nat × Nat)} (hi : Inv2 a s)
+    (hk : a'.ad = a.ad ∧ a'.hA = a.hA) (it : Item dd ll s s')
     (hne : ll ≠ []) (hA : dd.isAssoc = false) (hnop : NonOp dd)
     (hsk : decide (s'.regs.nbitsSkipped ≠ 0) = a'.skip) (hqa : QaIn a' s'.regs.qa)
     (ha1 : a'.h1 = a.h1) (haD : a'.hD = a.hD) (k : VKind) (g : WSt → WSt) (hg : ∀ w, Flags w (g w))
@@ -827,7 +856,7 @@ theorem sim_attr {a a' : Abs} {s s' : St} {dd : DDesc} {ll : List (Nat × Nat)} 
         { g w with next := w.next + 1, reg := w.next :: w.reg, tab := (owner, .value k w.next (ownf w)) :: w.tab }) ∧
       OwnOK owner w.next (ownf w) ∧ Good1 o (.value k w.next (ownf w))) :
     Sim2 a a' Good1 s s' run := by
-  refine ⟨⟨it.inv hi hA hsk hqa, it.ext hi⟩, fun o w hf hr hb => ?_⟩
+  refine ⟨⟨it.inv hi hsk hqa hk.1, it.ext hi⟩, fun o w hf hr hb => ?_⟩
   obtain ⟨hlt, hlab⟩ := item_pos it hr hb
   obtain ⟨q, hq⟩ := List.exists_mem_of_ne_nil ll hne
   have hq' : q ∈ s'.links := by rw [it.links]; exact List.mem_append_left _ hq
@@ -836,12 +865,15 @@ theorem sim_attr {a a' : Abs} {s s' : St} {dd : DDesc} {ll : List (Nat × Nat)} 
   have fl := hg w
   obtain ⟨q1, q2, q3⟩ := hfl w hr.wq hr.w1 hr.wD
   refine ⟨_, _, erun, ?_, hgood⟩
-  exact hr.attr (by rw [it.descs]; rfl) it.links it.keys hlook holt hown rfl fl.dnp fl.assoc rfl rfl q1 q2 q3
+  exact hr.attr (by rw [it.descs]; rfl) it.links it.keys hlook holt hown ⟨dd, hlab, hA⟩ rfl fl.dnp fl.assoc rfl rfl
+    q1 q2 q3
     (by show MeanOK o a'.h1 (g w).firstMeaning (w.next + 1); rw [fl.fm]; exact (hr.m1.push hlab hnop).congr ha1)
     (by show MeanOK o a'.hD (g w).diffMeaning (w.next + 1); rw [fl.dm]; exact (hr.mD.push hlab hnop).congr haD)
+    it.assoc
+    (by show AMeanOK o a'.hA (g w).assocMeaning (w.next + 1); rw [fl.am]; exact hr.mA.mono hk.2 (Nat.le_succ _))
 
 /-- the coder changes registers only, the pass yields a node without value -/
-theorem sim_noval {a a' : Abs} {s s' : St} (hi : Inv2 a s)
+theorem sim_noval {a a' : Abs} {s s' : St} (hi : Inv2 a s) (hk : a'.ad = a.ad ∧ a'.hA = a.hA)
     (hd : s'.descs = s.descs) (hv : s'.vals = s.vals) (hl : s'.links = s.links)
     (h1 : s'.regs.assocStack = s.regs.assocStack) (h2 : s'.regs.nbitsNewRefval = s.regs.nbitsNewRefval)
     (h3 : s'.regs.dnpCount = s.regs.dnpCount)
@@ -851,14 +883,15 @@ theorem sim_noval {a a' : Abs} {s s' : St} (hi : Inv2 a s)
       (g w).waitQa = a'.w ∧ (g w).wait1st = a'.w1 ∧ (g w).waitDiff = a'.wD) (id : Nat) :
     Sim2 a a' Good1 s s' (fun _ w => .ok (.noval id, g w)) := by
   obtain ⟨l, hl0, hn⟩ := hi.vals
-  refine ⟨⟨⟨h1.trans hi.assoc, h2.trans hi.nref, h3.trans hi.dnp, by rw [hv, hd]; exact hi.vals,
-    by rw [hv, hd]; exact hi.al, by rw [hd]; exact hi.noA, hsk, hqa⟩,
+  refine ⟨⟨⟨by rw [h1, hk.1]; exact hi.assoc, h2.trans hi.nref, h3.trans hi.dnp, by rw [hv, hd]; exact hi.vals,
+    by rw [hv, hd]; exact hi.al, hsk, hqa⟩,
     ⟨⟨[], [], l, hl0, by rw [hv]; simpa using hl0, by rw [hd]; rfl⟩, [], by rw [hl]; rfl⟩⟩, fun o w hf hr hb => ?_⟩
   have fl := hg w
   obtain ⟨q1, q2, q3⟩ := hfl w hr.wq hr.w1 hr.wD
   refine ⟨_, _, rfl, ?_, good_noval o id⟩
-  exact hr.stay hd hl fl.next fl.dnp fl.assoc fl.reg fl.tab q1 q2 q3
+  exact hr.stay hd hl fl.next fl.dnp (by rw [fl.assoc, hr.assoc, h1]) fl.reg fl.tab q1 q2 q3
     (by rw [fl.fm, fl.next]; exact hr.m1.congr ha1) (by rw [fl.dm, fl.next]; exact hr.mD.congr haD)
+    (by rw [fl.am, fl.next]; exact hr.mA.mono hk.2 (Nat.le_refl _))
 
 theorem Sim2.congrR {α : Type} {a a' : Abs} {g : SubsetOut → α → Prop} {s s' : St}
     {run run' : SubsetOut → WSt → CM (α × WSt)} (he : ∀ o w, R o a s w → run o w = run' o w)
@@ -901,6 +934,19 @@ theorem meaning_fields (a : Abs) (id : Nat) :
   · exact ⟨rfl, rfl, rfl, rfl, rfl⟩
   · split <;> exact ⟨rfl, rfl, rfl, rfl, rfl⟩
 
+theorem meaning_keep (a : Abs) (id : Nat) : (a.meaning id).ad = a.ad ∧ (a.meaning id).hA = a.hA := by
+  unfold Abs.meaning
+  split
+  · exact ⟨rfl, rfl⟩
+  · split <;> exact ⟨rfl, rfl⟩
+
+theorem c33_keep {a a' : Abs} (h : a.c33 = some a') : a'.ad = a.ad ∧ a'.hA = a.hA := by
+  unfold Abs.c33 at h
+  split at h <;> split at h <;> first | (injection h with h; subst h; exact ⟨rfl, rfl⟩) | cases h
+
+theorem Inv2.stack0 {a : Abs} {s : St} (hi : Inv2 a s) (h : a.ad = 0) : s.regs.assocStack = [] :=
+  List.length_eq_zero_iff.mp (by rw [hi.assoc, h])
+
 theorem wireMarker_eval {o : SubsetOut} {k : VKind} {w : WSt} {owner : Nat} (hlt : w.next < o.descs.length)
     (hl : lookupLink o.links w.next = some owner) (hr : owner ∈ w.reg) :
     wireMarker o k w = .ok (.value k w.next [],
@@ -929,9 +975,11 @@ theorem wireElement_quality {o : SubsetOut} {id : Nat} {w : WSt} (ha : w.assoc =
 
 /-- an element that is not skipped: `process_element_descriptor` against `wire_element_descriptor` -/
 theorem elem_sim2 {P : Prims} (hP : PushOne P) {a a' : Abs} {e : Elem} {s s' : St} (hi : Inv2 a s)
-    (hsk : a.skip = false) (ha : a.elem e.id = some a') (h : elementDescriptor P (.plain e) e s = .ok s') :
+    (had0 : a.ad = 0) (hsk : a.skip = false) (ha : a.elem e.id = some a')
+    (h : elementDescriptor P (.plain e) e s = .ok s') :
     Sim2 a a' Good1 s s' (fun o w => wireElement o e.id w) := by
-  obtain ⟨s1, ll, qd, hp⟩ := elementDescriptor_links hP hi.assoc h
+  have hstack := hi.stack0 had0
+  obtain ⟨s1, ll, qd, hp⟩ := elementDescriptor_links hP (Or.inl hstack) h
   have it := Item.of_qa qd hp
   have hskip : s'.regs.nbitsSkipped = s.regs.nbitsSkipped := hp.skipped.trans qd.skipped
   have hqq : qaStep (xOf e.id) s.regs.qa s'.regs.qa := by rw [hp.qa]; exact qd.qa
@@ -945,22 +993,24 @@ theorem elem_sim2 {P : Prims} (hP : PushOne P) {a a' : Abs} {e : Elem} {s s' : S
     have hsk' : decide (s'.regs.nbitsSkipped ≠ 0) = a'.skip := by rw [hskip, esk]; exact hi.skip
     by_cases haw : a.w = true
     · have hne : ll ≠ [] := fun c => (qd.nil.mp c) ⟨hx, hw.mp haw⟩
-      refine sim_attr hi it hne rfl (nonop_plain e) hsk' hq' eh1 ehD .quality id (fun w => Flags.rfl' w)
+      refine sim_attr hi (c33_keep ha) it hne rfl (nonop_plain e) hsk' hq' eh1 ehD .quality id (fun w => Flags.rfl' w)
         (fun w q1 q2 q3 => ⟨by rw [ew]; exact q1, by rw [ew1]; exact q2, by rw [ewD]; exact q3⟩)
         (fun _ => []) _ (fun o w owner _ hr hlt hlook hreg _ => ?_)
       refine ⟨?_, Or.inl rfl, good_plain hlt⟩
-      rw [wireElement_quality hr.assoc hx (by rw [hr.wq]; exact haw), wireMarker_eval hlt hlook hreg]
+      rw [wireElement_quality (by rw [hr.assoc]; exact hstack) hx (by rw [hr.wq]; exact haw),
+        wireMarker_eval hlt hlook hreg]
       rfl
     · have hll : ll = [] := qd.nil.mpr (fun c => c.2 (Decidable.byContradiction fun hc => haw (hw.mpr hc)))
       subst hll
-      exact sim_elem_plain hi it rfl (nonop_plain e) hsk' hq' ⟨ew, ew1, ewD, eh1, ehD⟩ (meaning_x33 hx).symm
-        (fun c => haw c.2)
+      exact sim_elem_plain hi (c33_keep ha) had0 it rfl (nonop_plain e) hsk' hq' ⟨ew, ew1, ewD, eh1, ehD⟩
+        (meaning_x33 hx).symm (fun c => haw c.2)
   · rw [if_neg hx] at ha
     injection ha with ha
     have hll : ll = [] := qd.nil.mpr (fun c => hx c.1)
     subst hll
     obtain ⟨m1, m2, _⟩ := meaning_fields a.non33 e.id
-    refine sim_elem_plain (a0 := a.non33) hi it rfl (nonop_plain e) ?_ ?_ ⟨rfl, rfl, rfl, rfl, rfl⟩ ha.symm (fun c => hx c.1)
+    refine sim_elem_plain (a0 := a.non33) hi (by rw [← ha]; exact meaning_keep a.non33 e.id) had0 it rfl
+      (nonop_plain e) ?_ ?_ ⟨rfl, rfl, rfl, rfl, rfl⟩ ha.symm (fun c => hx c.1)
     · rw [hskip, ← ha, m2]; exact hi.skip
     · rw [← ha]; exact qaIn_meaning (qaIn_non33 hx hi.qa hqq)
 
@@ -1052,7 +1102,7 @@ theorem marker_item {P : Prims} (hP : PushOne P) {id : Nat} {s s' : St} (ha : s.
         ∃ e' ll x, Item (.marker id e') ll s s' ∧ ll ≠ [] ∧ s'.regs.nbitsSkipped = s.regs.nbitsSkipped ∧
           qaStep x s.regs.qa s'.regs.qa := by
       intro e' h
-      obtain ⟨s3, ll, qd, hp⟩ := elementDescriptor_links hP ha2 h
+      obtain ⟨s3, ll, qd, hp⟩ := elementDescriptor_links hP (Or.inl ha2) h
       refine ⟨e', ll ++ [(s.descs.length, owner)], xOf e'.id, ?_, by simp,
         hp.skipped.trans (qd.skipped.trans v.skipped), ?_⟩
       · have it := Item.of_qa qd hp
@@ -1125,7 +1175,7 @@ theorem wop_225 {o : SubsetOut} {id : Nat} {w : WSt} (h : id / 1000 = 225) :
 theorem sim_op_plain {a : Abs} {s s' : St} {id : Nat} (hi : Inv2 a s) (it : Item (.oper id) [] s s')
     (hs : s'.regs.nbitsSkipped = s.regs.nbitsSkipped) (hq : s'.regs.qa = s.regs.qa) (hnb : ¬ BmCode id) :
     Sim2 a a Good1 s s' (fun o w => w.plainValue o) :=
-  sim_plain hi it rfl (by rw [hs]; exact hi.skip) (by rw [hq]; exact hi.qa) (fun w => w) Flags.rfl'
+  sim_plain hi (by exact ⟨rfl, rfl⟩) it rfl (by rw [hs]; exact hi.skip) (by rw [hq]; exact hi.qa) (fun w => w) Flags.rfl'
     (fun _ q1 q2 q3 => ⟨q1, q2, q3⟩) (Or.inl ⟨nonop_oper (not_bmop_code hnb), rfl, rfl⟩)
 
 /-- the stats marker of the wiring pass: its meaning node lies behind the owner -/
@@ -1138,7 +1188,7 @@ theorem stats_hrun {o : SubsetOut} {w : WSt} {owner : Nat} {k : VKind} {fm : Opt
         { w with waitQa := false, next := w.next + 1, reg := w.next :: w.reg,
                  tab := (owner, .value k w.next [.value .value m []]) :: w.tab }) ∧
       OwnOK owner w.next [.value .value m []] ∧ Good1 o (.value k w.next [.value .value m []]) := by
-  obtain ⟨m, e, hmlt, hno⟩ := hm rfl
+  obtain ⟨m, e, hmlt, hno, d, hd, hA⟩ := hm rfl
   obtain ⟨p, id, h1, h2, h3, h4⟩ := hop
   have hpm : p < m := by
     apply Decidable.byContradiction
@@ -1146,17 +1196,15 @@ theorem stats_hrun {o : SubsetOut} {w : WSt} {owner : Nat} {k : VKind} {fm : Opt
     exact hno p id (by omega) h2 h4 h3
   refine ⟨m, e, ?_, Or.inr ⟨m, rfl, by omega, hmlt⟩, ?_, ?_⟩
   · exact wireStatsMarker_eval (w := { w with waitQa := false }) hlt hlook hreg
-  · have hml : m < o.descs.length := by omega
-    have hd : o.descs[m]? = some o.descs[m] := List.getElem?_eq_getElem hml
-    have hA := hf.2 _ (List.getElem_mem hml)
-    rw [treeOK1]
+  · rw [treeOK1]
     simp [ownAttrOK, hd, hA, VKind.isAssoc]
   · simp [shape1, valShape, ownShape, hlt, hmlt]
 
 set_option maxHeartbeats 400000 in
 /-- an operator: `process_operator_descriptor` against `wire_operator_descriptor` -/
 theorem op_sim2 {P : Prims} (hP : PushOne P) {a a' : Abs} {id : Nat} {s s' : St} (hi : Inv2 a s)
-    (hsk : a.skip = false) (ha : a.op id = some a') (h : operatorDescriptor P id s = .ok s') :
+    (had : BmCode id → s.regs.assocStack = []) (hsk : a.skip = false) (ha : a.op id = some a')
+    (h : operatorDescriptor P id s = .ok s') :
     Sim2 a a' Good1 s s' (fun o w => wireOperator o id w) := by
   unfold Abs.op at ha
   simp only at ha
@@ -1171,19 +1219,19 @@ theorem op_sim2 {P : Prims} (hP : PushOne P) {a a' : Abs} {id : Nat} {s s' : St}
       simp only [hc, Nat.reduceEqDiff, true_or, or_true, or_false, false_or, if_true, if_false] at h
     · injection h with h; subst h
       refine Sim2.congrR (fun o w _ => wop_noval (Or.inl hc)) ?_
-      refine sim_noval hi ?_ ?_ ?_ ?_ ?_ ?_ ?_ ?_ ?_ ?_ (fun w => w) Flags.rfl' (fun _ q1 q2 q3 => ⟨q1, q2, q3⟩) id <;>
+      refine sim_noval hi (by exact ⟨rfl, rfl⟩) ?_ ?_ ?_ ?_ ?_ ?_ ?_ ?_ ?_ ?_ (fun w => w) Flags.rfl' (fun _ q1 q2 q3 => ⟨q1, q2, q3⟩) id <;>
         first | rfl | exact hi.skip | exact hi.qa
     · injection h with h; subst h
       refine Sim2.congrR (fun o w _ => wop_noval (Or.inr (Or.inl hc))) ?_
-      refine sim_noval hi ?_ ?_ ?_ ?_ ?_ ?_ ?_ ?_ ?_ ?_ (fun w => w) Flags.rfl' (fun _ q1 q2 q3 => ⟨q1, q2, q3⟩) id <;>
+      refine sim_noval hi (by exact ⟨rfl, rfl⟩) ?_ ?_ ?_ ?_ ?_ ?_ ?_ ?_ ?_ ?_ (fun w => w) Flags.rfl' (fun _ q1 q2 q3 => ⟨q1, q2, q3⟩) id <;>
         first | rfl | exact hi.skip | exact hi.qa
     · injection h with h; subst h
       refine Sim2.congrR (fun o w _ => wop_noval (by omega)) ?_
-      refine sim_noval hi ?_ ?_ ?_ ?_ ?_ ?_ ?_ ?_ ?_ ?_ (fun w => w) Flags.rfl' (fun _ q1 q2 q3 => ⟨q1, q2, q3⟩) id <;>
+      refine sim_noval hi (by exact ⟨rfl, rfl⟩) ?_ ?_ ?_ ?_ ?_ ?_ ?_ ?_ ?_ ?_ (fun w => w) Flags.rfl' (fun _ q1 q2 q3 => ⟨q1, q2, q3⟩) id <;>
         first | rfl | exact hi.skip | exact hi.qa
     · injection h with h; subst h
       refine Sim2.congrR (fun o w _ => wop_noval (by omega)) ?_
-      refine sim_noval hi ?_ ?_ ?_ ?_ ?_ ?_ ?_ ?_ ?_ ?_ (fun w => w) Flags.rfl' (fun _ q1 q2 q3 => ⟨q1, q2, q3⟩) id <;>
+      refine sim_noval hi (by exact ⟨rfl, rfl⟩) ?_ ?_ ?_ ?_ ?_ ?_ ?_ ?_ ?_ ?_ (fun w => w) Flags.rfl' (fun _ q1 q2 q3 => ⟨q1, q2, q3⟩) id <;>
         first | rfl | exact hi.skip | exact hi.qa
     · have hp := hP.string _ _ _ _ h
       exact Sim2.congrR (fun o w _ => wop_plain (Or.inl hc))
@@ -1208,7 +1256,7 @@ theorem op_sim2 {P : Prims} (hP : PushOne P) {a a' : Abs} {id : Nat} {s s' : St}
       simp only [c2, Nat.reduceEqDiff, true_or, or_true, or_false, false_or, if_true, if_false] at h
       injection h with h; subst h
       refine Sim2.congrR (fun o w _ => wop_noval (by omega)) ?_
-      refine sim_noval (a' := { a with skip := decide (id % 1000 ≠ 0) }) hi ?_ ?_ ?_ ?_ ?_ ?_ ?_ ?_ ?_ ?_ (fun w => w)
+      refine sim_noval (a' := { a with skip := decide (id % 1000 ≠ 0) }) hi (by exact ⟨rfl, rfl⟩) ?_ ?_ ?_ ?_ ?_ ?_ ?_ ?_ ?_ ?_ (fun w => w)
         Flags.rfl' (fun _ q1 q2 q3 => ⟨q1, q2, q3⟩) id <;> first | rfl | exact qaIn_skip _ hi.qa
     · rw [if_neg c2] at ha
       by_cases c3 : id / 1000 = 222
@@ -1219,8 +1267,8 @@ theorem op_sim2 {P : Prims} (hP : PushOne P) {a a' : Abs} {id : Nat} {s s' : St}
           subst ha
           obtain ⟨it, hs, hq⟩ := bmop_item hP (Or.inl c3) hy h
           refine Sim2.congrR (fun o w _ => wop_222 c3) ?_
-          exact sim_plain hi it rfl (by rw [hs]; exact hi.skip) (by rw [hq, if_pos c3]; rfl)
-            (fun w => { w with waitQa := true }) (fun _ => ⟨rfl, rfl, rfl, rfl, rfl, rfl, rfl⟩)
+          exact sim_plain hi (by exact ⟨rfl, rfl⟩) it rfl (by rw [hs]; exact hi.skip) (by rw [hq, if_pos c3]; rfl)
+            (fun w => { w with waitQa := true }) (fun _ => ⟨rfl, rfl, rfl, rfl, rfl, rfl, rfl, rfl⟩)
             (fun _ _ q2 q3 => ⟨rfl, q2, q3⟩) (Or.inr ⟨rfl, rfl⟩)
         · rw [if_neg hy] at ha
           cases ha
@@ -1234,17 +1282,17 @@ theorem op_sim2 {P : Prims} (hP : PushOne P) {a a' : Abs} {id : Nat} {s s' : St}
             subst ha
             obtain ⟨it, hs, hq⟩ := bmop_item hP hbm hy h
             refine Sim2.congrR (fun o w _ => by rw [wop_223 c4, if_pos hy]) ?_
-            exact sim_plain hi it rfl (by rw [hs]; exact hi.skip) (by rw [hq, if_neg c3]; exact hi.qa)
-              (fun w => { w with waitQa := false }) (fun _ => ⟨rfl, rfl, rfl, rfl, rfl, rfl, rfl⟩)
+            exact sim_plain hi (by exact ⟨rfl, rfl⟩) it rfl (by rw [hs]; exact hi.skip) (by rw [hq, if_neg c3]; exact hi.qa)
+              (fun w => { w with waitQa := false }) (fun _ => ⟨rfl, rfl, rfl, rfl, rfl, rfl, rfl, rfl⟩)
               (fun _ _ q2 q3 => ⟨rfl, q2, q3⟩) (Or.inr ⟨rfl, rfl⟩)
           · rw [if_neg hy] at ha
             injection ha with ha
             subst ha
-            obtain ⟨e', ll, x, it, hne, hs, hq⟩ := marker_item hP hi.assoc hbm hy h
+            obtain ⟨e', ll, x, it, hne, hs, hq⟩ := marker_item hP (had hbm) hbm hy h
             refine Sim2.congrR (fun o w _ => by rw [wop_223 c4, if_neg hy]) ?_
-            refine sim_attr hi it hne rfl (nonop_marker _ _) (by rw [hs]; exact hi.skip) (qaIn_marker hi.qa hq) rfl rfl
+            refine sim_attr hi (by exact ⟨rfl, rfl⟩) it hne rfl (nonop_marker _ _) (by rw [hs]; exact hi.skip) (qaIn_marker hi.qa hq) rfl rfl
               (if id / 1000 = 223 then .substitution else .replacement) (fun w => { w with waitQa := false })
-              (fun _ => ⟨rfl, rfl, rfl, rfl, rfl, rfl, rfl⟩) (fun _ _ q2 q3 => ⟨rfl, q2, q3⟩) (fun _ => []) _
+              (fun _ => ⟨rfl, rfl, rfl, rfl, rfl, rfl, rfl, rfl⟩) (fun _ _ q2 q3 => ⟨rfl, q2, q3⟩) (fun _ => []) _
               (fun o w owner _ hr hlt hlook hreg _ => ⟨?_, Or.inl rfl, good_plain hlt⟩)
             exact wireMarker_eval (w := { w with waitQa := false }) hlt hlook hreg
         · rw [if_neg c4] at ha
@@ -1257,19 +1305,19 @@ theorem op_sim2 {P : Prims} (hP : PushOne P) {a a' : Abs} {id : Nat} {s s' : St}
               subst ha
               obtain ⟨it, hs, hq⟩ := bmop_item hP hbm hy h
               refine Sim2.congrR (fun o w _ => by rw [wop_224 c5, if_pos hy]) ?_
-              exact sim_plain hi it rfl (by rw [hs]; exact hi.skip) (by rw [hq, if_neg c3]; exact hi.qa)
+              exact sim_plain hi (by exact ⟨rfl, rfl⟩) it rfl (by rw [hs]; exact hi.skip) (by rw [hq, if_neg c3]; exact hi.qa)
                 (fun w => { w with waitQa := false, wait1st := true })
-                (fun _ => ⟨rfl, rfl, rfl, rfl, rfl, rfl, rfl⟩) (fun _ _ _ q3 => ⟨rfl, rfl, q3⟩) (Or.inr ⟨rfl, rfl⟩)
+                (fun _ => ⟨rfl, rfl, rfl, rfl, rfl, rfl, rfl, rfl⟩) (fun _ _ _ q3 => ⟨rfl, rfl, q3⟩) (Or.inr ⟨rfl, rfl⟩)
             · rw [if_neg hy] at ha
               by_cases hh : a.h1 = true
               · rw [if_pos hh] at ha
                 injection ha with ha
                 subst ha
-                obtain ⟨e', ll, x, it, hne, hs, hq⟩ := marker_item hP hi.assoc hbm hy h
+                obtain ⟨e', ll, x, it, hne, hs, hq⟩ := marker_item hP (had hbm) hbm hy h
                 refine Sim2.congrR (fun o w _ => by rw [wop_224 c5, if_neg hy]) ?_
-                refine sim_attr hi it hne rfl (nonop_marker _ _) (by rw [hs]; exact hi.skip) (qaIn_marker hi.qa hq)
+                refine sim_attr hi (by exact ⟨rfl, rfl⟩) it hne rfl (nonop_marker _ _) (by rw [hs]; exact hi.skip) (qaIn_marker hi.qa hq)
                   rfl rfl .firstOrder (fun w => { w with waitQa := false })
-                  (fun _ => ⟨rfl, rfl, rfl, rfl, rfl, rfl, rfl⟩) (fun _ _ q2 q3 => ⟨rfl, q2, q3⟩)
+                  (fun _ => ⟨rfl, rfl, rfl, rfl, rfl, rfl, rfl, rfl⟩) (fun _ _ q2 q3 => ⟨rfl, q2, q3⟩)
                   (fun w => match w.firstMeaning with | some m => [.value .value m []] | none => []) _
                   (fun o w owner hf hr hlt hlook hreg hop => ?_)
                 have hm := hr.m1
@@ -1289,19 +1337,19 @@ theorem op_sim2 {P : Prims} (hP : PushOne P) {a a' : Abs} {id : Nat} {s s' : St}
                 subst ha
                 obtain ⟨it, hs, hq⟩ := bmop_item hP hbm hy h
                 refine Sim2.congrR (fun o w _ => by rw [wop_225 c6, if_pos hy]) ?_
-                exact sim_plain hi it rfl (by rw [hs]; exact hi.skip) (by rw [hq, if_neg c3]; exact hi.qa)
+                exact sim_plain hi (by exact ⟨rfl, rfl⟩) it rfl (by rw [hs]; exact hi.skip) (by rw [hq, if_neg c3]; exact hi.qa)
                   (fun w => { w with waitQa := false, waitDiff := true })
-                  (fun _ => ⟨rfl, rfl, rfl, rfl, rfl, rfl, rfl⟩) (fun _ _ q2 _ => ⟨rfl, q2, rfl⟩) (Or.inr ⟨rfl, rfl⟩)
+                  (fun _ => ⟨rfl, rfl, rfl, rfl, rfl, rfl, rfl, rfl⟩) (fun _ _ q2 _ => ⟨rfl, q2, rfl⟩) (Or.inr ⟨rfl, rfl⟩)
               · rw [if_neg hy] at ha
                 by_cases hh : a.hD = true
                 · rw [if_pos hh] at ha
                   injection ha with ha
                   subst ha
-                  obtain ⟨e', ll, x, it, hne, hs, hq⟩ := marker_item hP hi.assoc hbm hy h
+                  obtain ⟨e', ll, x, it, hne, hs, hq⟩ := marker_item hP (had hbm) hbm hy h
                   refine Sim2.congrR (fun o w _ => by rw [wop_225 c6, if_neg hy]) ?_
-                  refine sim_attr hi it hne rfl (nonop_marker _ _) (by rw [hs]; exact hi.skip) (qaIn_marker hi.qa hq)
+                  refine sim_attr hi (by exact ⟨rfl, rfl⟩) it hne rfl (nonop_marker _ _) (by rw [hs]; exact hi.skip) (qaIn_marker hi.qa hq)
                     rfl rfl .difference (fun w => { w with waitQa := false })
-                    (fun _ => ⟨rfl, rfl, rfl, rfl, rfl, rfl, rfl⟩) (fun _ _ q2 q3 => ⟨rfl, q2, q3⟩)
+                    (fun _ => ⟨rfl, rfl, rfl, rfl, rfl, rfl, rfl, rfl⟩) (fun _ _ q2 q3 => ⟨rfl, q2, q3⟩)
                     (fun w => match w.diffMeaning with | some m => [.value .value m []] | none => []) _
                     (fun o w owner hf hr hlt hlook hreg hop => ?_)
                   have hm := hr.mD
@@ -1322,11 +1370,206 @@ theorem op_sim2 {P : Prims} (hP : PushOne P) {a a' : Abs} {id : Nat} {s s' : St}
                 simp only [c7, Nat.reduceEqDiff, true_or, or_true, or_false, false_or, if_true, if_false] at h
                 injection h with h; subst h
                 refine Sim2.congrR (fun o w _ => wop_235 c7) ?_
-                refine sim_noval (a' := { a with w := false }) hi ?_ ?_ ?_ ?_ ?_ ?_ ?_ ?_ ?_ ?_
-                  (fun w => { w with waitQa := false }) (fun _ => ⟨rfl, rfl, rfl, rfl, rfl, rfl, rfl⟩)
+                refine sim_noval (a' := { a with w := false }) hi (by exact ⟨rfl, rfl⟩) ?_ ?_ ?_ ?_ ?_ ?_ ?_ ?_ ?_ ?_
+                  (fun w => { w with waitQa := false }) (fun _ => ⟨rfl, rfl, rfl, rfl, rfl, rfl, rfl, rfl⟩)
                   (fun _ _ q2 q3 => ⟨rfl, q2, q3⟩) id <;> first | rfl | exact hi.skip | exact hi.qa
               · rw [if_neg c7] at ha
                 cases ha
+
+/-! ### associated fields (204) in stretches without bit-map constructs -/
+
+theorem wop_204 {o : SubsetOut} {id : Nat} {w : WSt} (h : id / 1000 = 204) :
+    wireOperator o id w = (if id % 1000 = 0 then
+        (if w.assoc = [] then .error .other else .ok (.noval id, { w with assoc := w.assoc.dropLast }))
+      else .ok (.noval id, { w with assoc := w.assoc ++ [id % 1000] })) := by
+  unfold wireOperator wireOperatorCY
+  simp [h]
+
+/-- 204YYY / 204000: both walks push / pop the same stack -/
+theorem op204_sim2 {P : Prims} {a a' : Abs} {id : Nat} {s s' : St} (hi : Inv2 a s) (hc : id / 1000 = 204)
+    (ha : (if id % 1000 = 0 then (if a.ad = 0 then none else some { a with ad := a.ad - 1 })
+           else some { a with ad := a.ad + 1 }) = some a')
+    (h : operatorDescriptor P id s = .ok s') :
+    Sim2 a a' Good1 s s' (fun o w => wireOperator o id w) := by
+  unfold operatorDescriptor at h
+  simp only [hc, Nat.reduceEqDiff, true_or, or_true, or_false, false_or, if_true, if_false] at h
+  obtain ⟨l, hl0, hn⟩ := hi.vals
+  by_cases hy : id % 1000 = 0
+  · rw [if_pos hy] at ha h
+    split at ha
+    · cases ha
+    · next had =>
+      injection ha with ha
+      subst ha
+      split at h
+      · cases h
+      · next hne =>
+        injection h with h
+        subst h
+        refine ⟨⟨⟨by show (s.regs.assocStack.dropLast).length = a.ad - 1; rw [List.length_dropLast, hi.assoc],
+          hi.nref, hi.dnp, hi.vals, hi.al, hi.skip, hi.qa⟩,
+          ⟨⟨[], [], l, hl0, hl0, rfl⟩, [], rfl⟩⟩, fun o w hf hr hb => ?_⟩
+        have hwne : ¬ w.assoc = [] := by rw [hr.assoc]; exact hne
+        refine ⟨.noval id, { w with assoc := w.assoc.dropLast }, by dsimp only; rw [wop_204 hc, if_pos hy, if_neg hwne], ?_,
+          good_noval o id⟩
+        exact hr.stay rfl rfl rfl rfl (by show w.assoc.dropLast = s.regs.assocStack.dropLast; rw [hr.assoc]) rfl rfl
+          hr.wq hr.w1 hr.wD hr.m1 hr.mD hr.mA
+  · rw [if_neg hy] at ha h
+    injection ha with ha
+    subst ha
+    injection h with h
+    subst h
+    refine ⟨⟨⟨by show (s.regs.assocStack ++ [id % 1000]).length = a.ad + 1; rw [List.length_append, hi.assoc]; rfl,
+      hi.nref, hi.dnp, hi.vals, hi.al, hi.skip, hi.qa⟩,
+      ⟨⟨[], [], l, hl0, hl0, rfl⟩, [], rfl⟩⟩, fun o w hf hr hb => ?_⟩
+    refine ⟨.noval id, { w with assoc := w.assoc ++ [id % 1000] }, by dsimp only; rw [wop_204 hc, if_neg hy], ?_, good_noval o id⟩
+    exact hr.stay rfl rfl rfl rfl (by show w.assoc ++ _ = s.regs.assocStack ++ _; rw [hr.assoc]) rfl rfl
+      hr.wq hr.w1 hr.wD hr.m1 hr.mD hr.mA
+
+theorem x31_not_special {id : Nat} (h : xOf id = 31) : id ≠ 8023 ∧ id ≠ 8024 := by
+  constructor <;> (intro e; subst e; revert h; decide)
+
+/-- a class 31 element while an associated field is in force: wired alone; 031021 becomes the meaning node -/
+theorem wireElement_31 {o : SubsetOut} {id : Nat} {w : WSt} (hlt : w.next < o.descs.length) (hx : xOf id = 31)
+    (hne : w.assoc ≠ []) :
+    wireElement o id w = .ok (.value .value w.next [],
+      if id = 31021 then { w with next := w.next + 1, reg := w.next :: w.reg, assocMeaning := some w.next }
+      else { w with next := w.next + 1, reg := w.next :: w.reg }) := by
+  obtain ⟨n1, n2⟩ := x31_not_special hx
+  unfold wireElement WSt.valueNode
+  have h1 : ¬ (w.assoc ≠ [] ∧ xOf id ≠ 31) := fun c => c.2 hx
+  have h2 : ¬ (xOf id = 33 ∧ w.waitQa = true) := fun c => by rw [hx] at c; exact absurd c.1 (by decide)
+  rw [if_neg h1, if_neg h2, take_eval hlt]
+  simp only [WSt.register]
+  by_cases c : id = 31021 <;> simp [c, hne, n1, n2]
+
+/-- any other element while an associated field is in force: two indices, the field first -/
+theorem wireElement_assoc {o : SubsetOut} {id m : Nat} {w : WSt} (hlt : w.next + 1 < o.descs.length)
+    (hx : xOf id ≠ 31) (hne : w.assoc ≠ []) (hm : w.assocMeaning = some m) :
+    wireElement o id w = .ok (.value .value (w.next + 1) [.value .assoc w.next [.value .value m []]],
+      { w with next := w.next + 2, reg := (w.next + 1) :: w.reg }) := by
+  unfold wireElement
+  rw [if_pos ⟨hne, hx⟩, take_eval (by omega)]
+  simp only [hm]
+  unfold WSt.take
+  simp only [if_pos hlt]
+  rfl
+
+/-- `process_element_descriptor` with an associated field: the field, the QA machine, the element -/
+theorem elementDescriptor_assoc {P : Prims} (hP : PushOne P) {dd : DDesc} {e : Elem} {s s' : St}
+    (hne : s.regs.assocStack ≠ []) (hx : xOf e.id ≠ 31) (h : elementDescriptor P dd e s = .ok s') :
+    ∃ s1 s2 ll, Pushed (.assoc e.id s.regs.assocStack.sum) s s1 ∧ QaDone (xOf e.id) s1 s2 ll ∧ Pushed dd s2 s' := by
+  unfold elementDescriptor at h
+  simp only [if_pos (And.intro hne hx), bind, Except.bind] at h
+  unfold associatedField at h
+  split at h
+  · cases h
+  · next s1 h1 =>
+    have hp1 := hP.codeflag _ _ _ _ h1
+    have h' : (qaPart e s1 >>= elemTail P dd e) = .ok s' := by
+      unfold qaPart elemTail
+      simp only [bind, Except.bind, pure, Except.pure]
+      exact h
+    cases h2 : qaPart e s1 with
+    | error err => rw [h2] at h'; cases h'
+    | ok s2 =>
+      rw [h2] at h'
+      obtain ⟨ll, qd⟩ := qaPart_done h2
+      exact ⟨s1, s2, ll, hp1, qd, elemTail_pushed hP h'⟩
+
+set_option maxHeartbeats 400000 in
+/-- an element while an associated field is in force -/
+theorem elemA_sim2 {P : Prims} (hP : PushOne P) {a a' : Abs} {e : Elem} {s s' : St} (hi : Inv2 a s)
+    (had : a.ad ≠ 0) (hsk : a.skip = false)
+    (ha : (if xOf e.id = 31 then some { a.non33 with hA := a.hA || decide (e.id = 31021) }
+           else if xOf e.id = 33 then none else if a.hA then some a.non33 else none) = some a')
+    (h : elementDescriptor P (.plain e) e s = .ok s') :
+    Sim2 a a' Good1 s s' (fun o w => wireElement o e.id w) := by
+  have hstack : s.regs.assocStack ≠ [] := fun c => had (by rw [← hi.assoc, c]; rfl)
+  by_cases hx : xOf e.id = 31
+  · rw [if_pos hx] at ha
+    injection ha with ha
+    subst ha
+    have hx33 : xOf e.id ≠ 33 := by rw [hx]; decide
+    obtain ⟨s1, ll, qd, hp⟩ := elementDescriptor_links hP (Or.inr hx) h
+    have hll : ll = [] := qd.nil.mpr (fun c => hx33 c.1)
+    subst hll
+    have it := Item.of_qa qd hp
+    have hqq : qaStep (xOf e.id) s.regs.qa s'.regs.qa := by rw [hp.qa]; exact qd.qa
+    refine ⟨⟨it.inv hi (by rw [hp.skipped, qd.skipped]; exact hi.skip) (qaIn_non33 hx33 hi.qa hqq) rfl, it.ext hi⟩,
+      fun o w hf hr hb => ?_⟩
+    obtain ⟨hlt, hlab⟩ := item_pos it hr hb
+    have hwne : w.assoc ≠ [] := by rw [hr.assoc]; exact hstack
+    refine ⟨_, _, wireElement_31 hlt hx hwne, ?_, good_plain hlt⟩
+    have hd : s'.descs.length = s.descs.length + 1 := by rw [it.descs]; rfl
+    have hl : s'.links = s.links := by rw [it.links]; rfl
+    by_cases c : e.id = 31021
+    · rw [if_pos c]
+      exact hr.value hd hl rfl rfl rfl rfl rfl hr.wq hr.w1 hr.wD (hr.m1.push hlab (nonop_plain e))
+        (hr.mD.push hlab (nonop_plain e)) it.assoc (fun _ => ⟨w.next, rfl, Nat.lt_succ_self _, _, hlab, rfl⟩)
+    · rw [if_neg c]
+      exact hr.value hd hl rfl rfl rfl rfl rfl hr.wq hr.w1 hr.wD (hr.m1.push hlab (nonop_plain e))
+        (hr.mD.push hlab (nonop_plain e)) it.assoc
+        (hr.mA.mono (by show (a.hA || decide (e.id = 31021)) = a.hA; simp [c]) (Nat.le_succ _))
+  · rw [if_neg hx] at ha
+    split at ha
+    · cases ha
+    · next hx33 =>
+      split at ha
+      · next hhA =>
+        injection ha with ha
+        subst ha
+        obtain ⟨s1, s2, ll, hp1, qd, hp2⟩ := elementDescriptor_assoc hP hstack hx h
+        have hll : ll = [] := qd.nil.mpr (fun c => hx33 c.1)
+        subst hll
+        have it1 : Item (.assoc e.id s.regs.assocStack.sum) [] s s1 := Item.of_pushed hp1
+        have it2 : Item (.plain e) [] s1 s' := Item.of_qa qd hp2
+        have hi1 : Inv2 a s1 := it1.inv hi (by rw [hp1.skipped]; exact hi.skip) (by rw [hp1.qa]; exact hi.qa) rfl
+        have hqq : qaStep (xOf e.id) s1.regs.qa s'.regs.qa := by rw [hp2.qa]; exact qd.qa
+        have hi2 : Inv2 a.non33 s' := it2.inv hi1 (by rw [hp2.skipped, qd.skipped]; exact hi1.skip)
+          (qaIn_non33 hx33 hi1.qa hqq) rfl
+        refine ⟨⟨hi2, (it1.ext hi).trans (it2.ext hi1)⟩, fun o w hf hr hb => ?_⟩
+        have hb1 : Below2 o s1 := Below2.of_ext (it2.ext hi1) hb
+        have hlen := hb.1.len
+        rw [it2.descs, it1.descs, List.length_cons, List.length_cons] at hlen
+        have hlt2 : w.next + 1 < o.descs.length := by rw [hr.next]; omega
+        have hlabA : o.descs[w.next]? = some (.assoc e.id s.regs.assocStack.sum) := by
+          rw [hr.next]; exact hb1.1.label it1.descs
+        have hlabE : o.descs[w.next + 1]? = some (.plain e) := by
+          have := hb.1.label it2.descs
+          rw [it1.descs, List.length_cons] at this
+          rw [hr.next]; exact this
+        have hwne : w.assoc ≠ [] := by rw [hr.assoc]; exact hstack
+        obtain ⟨m, hm, hmlt, hmA⟩ := hr.mA hhA
+        refine ⟨_, _, wireElement_assoc hlt2 hx hwne hm, ?_, ?_⟩
+        · have nA : NonOp (.assoc e.id s.regs.assocStack.sum) := fun _ h => by cases h
+          refine ⟨by show w.next + 2 = s'.descs.length; rw [it2.descs, it1.descs, hr.next]; rfl, hr.dnp,
+            by show w.assoc = s'.regs.assocStack; rw [hr.assoc, it2.assoc, it1.assoc], hr.wq, hr.w1, hr.wD,
+            (hr.m1.push hlabA nA).push hlabE (nonop_plain e), (hr.mD.push hlabA nA).push hlabE (nonop_plain e),
+            hr.mA.mono rfl (by show w.next ≤ w.next + 2; omega), ?_, ?_, ?_⟩
+          · intro j hj hnA
+            show j ∈ (w.next + 1) :: w.reg
+            by_cases e1 : j = w.next + 1
+            · rw [e1]; exact List.mem_cons_self
+            · by_cases e2 : j = w.next
+              · exfalso
+                obtain ⟨d, hd, hdA⟩ := hnA
+                rw [e2, hlabA] at hd
+                injection hd with hd
+                rw [← hd] at hdA
+                cases hdA
+              · exact List.mem_cons_of_mem _ (hr.reg j (by have : j < w.next + 2 := hj; omega) hnA)
+          · intro p hp
+            obtain ⟨k, i, own, e1, e0, e2, e3, e4⟩ := hr.tabS p hp
+            exact ⟨k, i, own, e1, e0, by show i < w.next + 2; omega, e3, e4⟩
+          · intro q hq
+            rw [it2.links, it1.links] at hq
+            exact hr.tabC q hq
+        · constructor
+          · rw [treeOK1]
+            simp [ownAttrOK, hlabA, DDesc.isAssoc, VKind.isAssoc]
+          · simp [shape1, valShape, ownShape, hlt2, hmlt]
+      · cases ha
 
 /-! ### composition -/
 
@@ -1352,25 +1595,26 @@ theorem Sim2.weaken {α : Type} {a a' c : Abs} {g : SubsetOut → α → Prop} {
   exact ⟨x, w', e, hR o w' hr', gx⟩
 
 theorem R.abs {o : SubsetOut} {a c : Abs} {s : St} {w : WSt} (h : R o a s w) (e1 : c.w = a.w) (e2 : c.w1 = a.w1)
-    (e3 : c.wD = a.wD) (e4 : c.h1 = a.h1) (e5 : c.hD = a.hD) : R o c s w :=
+    (e3 : c.wD = a.wD) (e4 : c.h1 = a.h1) (e5 : c.hD = a.hD) (k : c.ad = a.ad ∧ c.hA = a.hA) : R o c s w :=
   ⟨h.next, h.dnp, h.assoc, by rw [e1]; exact h.wq, by rw [e2]; exact h.w1, by rw [e3]; exact h.wD,
-    h.m1.congr e4, h.mD.congr e5, h.reg, h.tabS, h.tabC⟩
+    h.m1.congr e4, h.mD.congr e5, h.mA.mono k.2 (Nat.le_refl _), h.reg, h.tabS, h.tabC⟩
 
-theorem Inv2.abs {a c : Abs} {s : St} (h : Inv2 a s) (e : c.skip = a.skip) (hq : ∀ q, QaIn a q → QaIn c q) :
-    Inv2 c s :=
-  ⟨h.assoc, h.nref, h.dnp, h.vals, h.al, h.noA, by rw [e]; exact h.skip, hq _ h.qa⟩
+theorem Inv2.abs {a c : Abs} {s : St} (h : Inv2 a s) (e : c.skip = a.skip) (hq : ∀ q, QaIn a q → QaIn c q)
+    (k : c.ad = a.ad ∧ c.hA = a.hA) : Inv2 c s :=
+  ⟨by rw [k.1]; exact h.assoc, h.nref, h.dnp, h.vals, h.al, by rw [e]; exact h.skip, hq _ h.qa⟩
 
 theorem join_facts {a b c : Abs} (h : a.join b = some c) :
     (c.w = a.w ∧ c.w1 = a.w1 ∧ c.wD = a.wD ∧ c.h1 = a.h1 ∧ c.hD = a.hD ∧ c.skip = a.skip) ∧
     (c.w = b.w ∧ c.w1 = b.w1 ∧ c.wD = b.wD ∧ c.h1 = b.h1 ∧ c.hD = b.hD ∧ c.skip = b.skip) ∧
-    (∀ q, QaIn a q → QaIn c q) ∧ (∀ q, QaIn b q → QaIn c q) := by
+    (∀ q, QaIn a q → QaIn c q) ∧ (∀ q, QaIn b q → QaIn c q) ∧
+    (c.ad = a.ad ∧ c.hA = a.hA) ∧ (c.ad = b.ad ∧ c.hA = b.hA) := by
   unfold Abs.join at h
   split at h
   · next hc =>
     injection h with h
     subst h
-    obtain ⟨h1, h2, h3, h4, h5, h6⟩ := hc
-    refine ⟨⟨rfl, rfl, rfl, rfl, rfl, rfl⟩, ⟨h1, h2, h3, h4, h5, h6⟩, ?_, ?_⟩
+    obtain ⟨h1, h2, h3, h4, h5, h6, h7, h8⟩ := hc
+    refine ⟨⟨rfl, rfl, rfl, rfl, rfl, rfl⟩, ⟨h1, h2, h3, h4, h5, h6⟩, ?_, ?_, ⟨rfl, rfl⟩, ⟨h7, h8⟩⟩
     · intro q hq; cases q <;> simp_all [QaIn]
     · intro q hq; cases q <;> simp_all [QaIn]
   · cases h
@@ -1526,24 +1770,36 @@ theorem walk1_sim2 {P : Prims} (hP : PushOne P) : ∀ (d : Desc) (a a' : Abs), a
   | .elem e, a, a', ha, s, s', hi, h => by
     rw [abs1] at ha
     refine Sim2.congrR (fun o w hr => wire1_elem0 hr.dnp) ?_
-    cases hsk : a.skip with
-    | false =>
-      obtain ⟨s1, v, q, h⟩ := noskip_pre hi hsk h
-      exact Sim2.pre hi v (elem_sim2 hP (hi.vis v q) hsk ha h)
-    | true =>
-      obtain ⟨it, hs0, hq⟩ := skip_pre hP hi hsk h
-      unfold Abs.elem at ha
-      rw [hsk] at ha
-      simp only [if_true] at ha
-      split at ha
-      · cases ha
-      · next hc =>
-        injection ha with ha
-        obtain ⟨_, m2, _⟩ := meaning_fields ({ a with skip := false } : Abs) e.id
-        refine sim_elem_plain (a0 := { a with skip := false }) hi it rfl (nonop_skipped _ _) ?_ ?_
-          ⟨rfl, rfl, rfl, rfl, rfl⟩ ha.symm hc
-        · rw [hs0, ← ha, m2]; rfl
-        · rw [hq, ← ha]; exact qaIn_meaning (qaIn_skip false hi.qa)
+    unfold Abs.elemA at ha
+    by_cases had : a.ad = 0
+    · rw [if_pos had] at ha
+      cases hsk : a.skip with
+      | false =>
+        obtain ⟨s1, v, q, h⟩ := noskip_pre hi hsk h
+        exact Sim2.pre hi v (elem_sim2 hP (hi.vis v q) had hsk ha h)
+      | true =>
+        obtain ⟨it, hs0, hq⟩ := skip_pre hP hi hsk h
+        unfold Abs.elem at ha
+        rw [hsk] at ha
+        simp only [if_true] at ha
+        split at ha
+        · cases ha
+        · next hc =>
+          injection ha with ha
+          obtain ⟨_, m2, _⟩ := meaning_fields ({ a with skip := false } : Abs) e.id
+          refine sim_elem_plain (a0 := { a with skip := false }) hi
+            (by rw [← ha]; exact meaning_keep ({ a with skip := false } : Abs) e.id) had it rfl (nonop_skipped _ _) ?_ ?_
+            ⟨rfl, rfl, rfl, rfl, rfl⟩ ha.symm hc
+          · rw [hs0, ← ha, m2]; rfl
+          · rw [hq, ← ha]; exact qaIn_meaning (qaIn_skip false hi.qa)
+    · rw [if_neg had] at ha
+      cases hsk : a.skip with
+      | true => rw [hsk] at ha; simp only [if_true] at ha; cases ha
+      | false =>
+        rw [hsk] at ha
+        simp only [Bool.false_eq_true, if_false] at ha
+        obtain ⟨s1, v, q, h⟩ := noskip_pre hi hsk h
+        exact Sim2.pre hi v (elemA_sim2 hP (hi.vis v q) had hsk ha h)
   | .undefElem id, a, a', ha, s, s', hi, h => by
     rw [abs1] at ha
     injection ha with ha
@@ -1556,7 +1812,7 @@ theorem walk1_sim2 {P : Prims} (hP : PushOne P) : ∀ (d : Desc) (a a' : Abs), a
       cases h
     | true =>
       obtain ⟨it, hs0, hq⟩ := skip_pre hP hi hsk h
-      exact sim_plain hi it rfl (by rw [hs0]; rfl) (by rw [hq]; exact qaIn_skip false hi.qa) (fun w => w) Flags.rfl'
+      exact sim_plain hi (by exact ⟨rfl, rfl⟩) it rfl (by rw [hs0]; rfl) (by rw [hq]; exact qaIn_skip false hi.qa) (fun w => w) Flags.rfl'
         (fun _ q1 q2 q3 => ⟨q1, q2, q3⟩) (Or.inl ⟨nonop_skipped _ _, rfl, rfl⟩)
   | .undefSeq id, a, a', ha, s, s', hi, h => by
     rw [abs1] at ha
@@ -1570,7 +1826,31 @@ theorem walk1_sim2 {P : Prims} (hP : PushOne P) : ∀ (d : Desc) (a a' : Abs), a
       simp only [Bool.false_eq_true, if_false] at ha
       obtain ⟨s1, v, q, h⟩ := noskip_pre hi hsk h
       refine Sim2.congrR (fun o w hr => by rw [wire1_op, preW_zero hr.dnp]) ?_
-      exact Sim2.pre hi v (op_sim2 hP (hi.vis v q) hsk ha h)
+      refine Sim2.pre hi v ?_
+      have hi1 := hi.vis v q
+      simp only [disp] at h
+      unfold Abs.opA at ha
+      by_cases c204 : id / 1000 = 204
+      · rw [if_pos c204] at ha
+        exact op204_sim2 hi1 c204 ha h
+      · rw [if_neg c204] at ha
+        by_cases had : a.ad = 0 ∨ id / 1000 = 206
+        · rw [if_pos had] at ha
+          refine op_sim2 hP hi1 (fun hb => ?_) hsk ha h
+          rcases had with had | had
+          · exact hi1.stack0 had
+          · unfold BmCode at hb; omega
+        · rw [if_neg had] at ha
+          split at ha
+          · next hc5 =>
+            injection ha with ha
+            subst ha
+            have hop : a.op id = some a := by
+              unfold Abs.op
+              simp only
+              rw [if_pos (by omega)]
+            exact op_sim2 hP hi1 (fun hb => by unfold BmCode at hb; omega) hsk hop h
+          · cases ha
   | .seq id ms, a, a', ha, s, s', hi, h => by
     rw [abs1] at ha
     split at ha
@@ -1663,14 +1943,19 @@ theorem walk1_sim2 {P : Prims} (hP : PushOne P) : ∀ (d : Desc) (a a' : Abs), a
                 · cases h
                 · next n hn =>
                   -- the factor
-                  obtain ⟨s2', ll, qd, hp⟩ := elementDescriptor_links hP hi1.assoc h2
-                  have hll : ll = [] := qd.nil.mpr (fun c => hx c.1)
+                  have hx33 : xOf fe.id ≠ 33 := fun c => hx (Or.inl c)
+                  have hx31 : s1.regs.assocStack = [] ∨ xOf fe.id = 31 := by
+                    by_cases c0 : a.ad = 0
+                    · exact Or.inl (hi1.stack0 c0)
+                    · exact Or.inr (Decidable.byContradiction fun c => hx (Or.inr ⟨c0, c⟩))
+                  obtain ⟨s2', ll, qd, hp⟩ := elementDescriptor_links hP hx31 h2
+                  have hll : ll = [] := qd.nil.mpr (fun c => hx33 c.1)
                   subst hll
                   have it := Item.of_qa qd hp
                   have hqq : qaStep (xOf fe.id) s1.regs.qa s2.regs.qa := by rw [hp.qa]; exact qd.qa
-                  have hi2 : Inv2 a.non33 s2 := it.inv hi1 rfl
-                    (by rw [hp.skipped, qd.skipped]; exact hi1.skip) (qaIn_non33 hx hi1.qa hqq)
-                  obtain ⟨jl, jr, ql, qr⟩ := join_facts ha
+                  have hi2 : Inv2 a.non33 s2 := it.inv hi1
+                    (by rw [hp.skipped, qd.skipped]; exact hi1.skip) (qaIn_non33 hx33 hi1.qa hqq) rfl
+                  obtain ⟨jl, jr, ql, qr, kl, kr⟩ := join_facts ha
                   -- the repetitions
                   have body01 := fun s s' hi h => walkList_sim2 hP ms a.non33 a1 h01 s s' hi h
                   have body11 := fun s s' hi h => walkList_sim2 hP ms a1 a1 h11 s s' hi h
@@ -1681,17 +1966,18 @@ theorem walk1_sim2 {P : Prims} (hP : PushOne P) : ∀ (d : Desc) (a a' : Abs), a
                       injection h with h
                       subst h
                       exact (Sim2.refl hi2 [] (fun o w => by unfold wireRepeat; rfl) (fun o => GoodL.nil o)).weaken
-                        (fun x => x.abs jl.2.2.2.2.2 ql) (fun _ _ x => x.abs jl.1 jl.2.1 jl.2.2.1 jl.2.2.2.1 jl.2.2.2.2.1)
+                        (fun x => x.abs jl.2.2.2.2.2 ql kl) (fun _ _ x => x.abs jl.1 jl.2.1 jl.2.2.1 jl.2.2.2.1 jl.2.2.2.2.1 kl)
                     | succ n =>
                       exact (iter_sim2_first (g := fun o => wireList o ms) body01 body11 n s2 s' hi2 h).weaken
-                        (fun x => x.abs jr.2.2.2.2.2 qr) (fun _ _ x => x.abs jr.1 jr.2.1 jr.2.2.1 jr.2.2.2.1 jr.2.2.2.2.1)
+                        (fun x => x.abs jr.2.2.2.2.2 qr kr) (fun _ _ x => x.abs jr.1 jr.2.1 jr.2.2.1 jr.2.2.2.1 jr.2.2.2.2.1 kr)
                   refine ⟨⟨x.1.1, (it.ext hi1).trans x.1.2⟩, fun o w hf hr hb => ?_⟩
                   have hb2 : Below2 o s2 := Below2.of_ext x.1.2 hb
                   obtain ⟨hlt, hlab⟩ := item_pos it hr hb2
                   have hc := count_sim2 hP hi1 it hr hb2.1 hn
                   have hr2 : R o a.non33 s2 ((({ w with next := w.next + 1 } : WSt)).register w.next) :=
                     hr.value (by rw [it.descs]; rfl) (by rw [it.links]; rfl) rfl rfl rfl rfl rfl hr.wq hr.w1 hr.wD
-                      (hr.m1.push hlab (nonop_plain fe)) (hr.mD.push hlab (nonop_plain fe))
+                      (hr.m1.push hlab (nonop_plain fe)) (hr.mD.push hlab (nonop_plain fe)) it.assoc
+                      (hr.mA.mono rfl (Nat.le_succ _))
                   obtain ⟨ns, w', e1, hr', g⟩ := x.2 o _ hf hr2 hb
                   dsimp only at e1
                   refine ⟨.delayedRep id ms.length (.value .value w.next []) ns, w', ?_, hr', ?_, ?_⟩
@@ -1719,11 +2005,11 @@ structure Linked (t : List Desc) (o : SubsetOut) (w : Wired) : Prop where
   next : w.st.next = o.vals.length
   len : o.descs.length = o.vals.length
   good : GoodL o w.nodes
-  noA : ∀ d ∈ o.descs, d.isAssoc = false
   /-- every attribute attached through a link sits under the owner the coder's link names; the owner lies in front
-      of it; the attributes it was created with are none or its meaning node, which lies behind the owner -/
+      of it; the attributes it was created with are none or its meaning node, which lies behind the owner; its label
+      is not an associated field -/
   owners : ∀ p ∈ w.st.tab, ∃ k i own, p.2 = .value k i own ∧ p.1 < i ∧ i < w.st.next ∧
-    lookupLink o.links i = some p.1 ∧ OwnOK p.1 i own
+    lookupLink o.links i = some p.1 ∧ OwnOK p.1 i own ∧ NotA o i
   /-- every link the coder recorded is shown -/
   shown : ∀ q ∈ o.links, ∃ p ∈ w.st.tab, p.2.index? = some q.1
 
@@ -1732,7 +2018,8 @@ theorem walk_linked {P : Prims} (hP : PushOne P) {t : List Desc} (hq : wireLinks
     (ha0 : ∀ l ∈ s0.vals, l = []) (hs : walkList P t s0 = .ok s) {o : SubsetOut}
     (hod : o.descs = s.descs.reverse) (hol : o.links = s.links.reverse)
     (hov : ∀ l, s.vals.head? = some l → o.vals = l.reverse)
-    (hlinks : ∀ l ∈ o.links, ∃ p id, l.2 < p ∧ p < l.1 ∧ C07.IsBitmapOp id ∧ o.descs[p]? = some (.oper id)) :
+    (hlinks : ∀ l ∈ o.links, NotA o l.2 ∧
+      ∃ p id, l.2 < p ∧ p < l.1 ∧ C07.IsBitmapOp id ∧ o.descs[p]? = some (.oper id)) :
     ∃ w, Linked t o w ∧ ∀ l ∈ s.vals, l.length = s.descs.length := by
   unfold wireLinksOK at hq
   cases habs : absList t {} with
@@ -1740,32 +2027,28 @@ theorem walk_linked {P : Prims} (hP : PushOne P) {t : List Desc} (hq : wireLinks
   | some a' =>
     obtain ⟨r, hv0⟩ := hv0
     have hi0 : Inv2 {} s0 := by
-      refine ⟨by rw [hr0], by rw [hr0], by rw [hr0], ⟨[], by rw [hv0]; rfl, by rw [hd0]; rfl⟩, ?_, ?_, by rw [hr0]; rfl,
+      refine ⟨by rw [hr0]; rfl, by rw [hr0], by rw [hr0], ⟨[], by rw [hv0]; rfl, by rw [hd0]; rfl⟩, ?_, by rw [hr0]; rfl,
         by rw [hr0]; rfl⟩
-      · intro l hl; rw [ha0 l hl, hd0]; rfl
-      · intro d hd; rw [hd0] at hd; cases hd
+      intro l hl; rw [ha0 l hl, hd0]; rfl
     have sim := walkList_sim2 hP t {} a' habs s0 s hi0 hs
     obtain ⟨l, hl, hlen⟩ := sim.1.1.vals
     have hvals := hov l hl
-    have hnoA : ∀ d ∈ o.descs, d.isAssoc = false := by
-      intro d hd
-      rw [hod] at hd
-      exact sim.1.1.noA d (List.mem_reverse.mp hd)
-    have hf : Fin o := ⟨hlinks, hnoA⟩
+    have hf : Fin o := hlinks
     have hb : Below2 o s := by
       refine ⟨⟨l, hl, ?_, ?_⟩, ?_⟩
       · rw [hvals]; exact List.prefix_refl _
       · rw [hod]; exact List.prefix_refl _
       · rw [hol]; exact List.prefix_refl _
     have hw0 : R o {} s0 {} := by
-      refine ⟨by rw [hd0]; rfl, rfl, rfl, rfl, rfl, rfl, MeanOK.off, MeanOK.off, ?_, ?_, ?_⟩
+      refine ⟨by rw [hd0]; rfl, rfl, by rw [hr0], rfl, rfl, rfl, MeanOK.off, MeanOK.off,
+        (fun h => by cases h), ?_, ?_, ?_⟩
       · intro j hj; exact absurd hj (Nat.not_lt_zero j)
       · intro p hp; cases hp
       · intro q hq; rw [hl0] at hq; cases hq
     obtain ⟨ns, w', e, hr', g⟩ := sim.2 o {} hf hw0 hb
     dsimp only at e
     have hn : w'.next = o.vals.length := by rw [hr'.next, ← hlen, hvals]; simp
-    refine ⟨{ nodes := ns, st := w' }, ⟨by unfold wireRaw; rw [e], hn, by rw [hod, hvals]; simp [hlen], g, hnoA,
+    refine ⟨{ nodes := ns, st := w' }, ⟨by unfold wireRaw; rw [e], hn, by rw [hod, hvals]; simp [hlen], g,
       hr'.tabS, ?_⟩, sim.1.1.al⟩
     intro q hq
     rw [hol] at hq
@@ -1777,11 +2060,8 @@ theorem Linked.sideOK {t : List Desc} {o : SubsetOut} {w : Wired} (h : Linked t 
   rw [h.good.1, h.next]
   simp only [Bool.true_and, beq_self_eq_true, Bool.and_true, List.all_eq_true]
   intro p hp
-  obtain ⟨k, i, own, e, _, hi, _, _⟩ := h.owners p hp
+  obtain ⟨k, i, own, e, _, hi, _, _, d, hd, hA⟩ := h.owners p hp
   rw [e]
-  have hlt : i < o.descs.length := by rw [h.len, ← h.next]; exact hi
-  have hd : o.descs[i]? = some o.descs[i] := List.getElem?_eq_getElem hlt
-  have hA := h.noA _ (List.getElem_mem hlt)
   simp [tabAttrOK, hd, hA]
 
 end Bufr.C09
